@@ -534,6 +534,15 @@ class Resolver:
         if isinstance(e, ast.Name) and f is not None and (e.id in f.params or e.id in f.kwonly) \
                 and e.id not in self.local_assigns.get(f.qual, {}):
             return self.param_consts(f, e.id, _seen)
+        if isinstance(e, ast.Name) and f is not None and not (e.id in f.params or e.id in f.kwonly) \
+                and e.id not in self.local_assigns.get(f.qual, {}):
+            try:
+                v = self.p.fold(f.module, e)
+            except Exception:
+                return None
+            if isinstance(v, (str, int, float, bool)) or v is None:
+                return {("c", v)}
+            return None
         if isinstance(e, ast.UnaryOp) and isinstance(e.op, ast.Not):
             v = self._const_expr(e.operand, f, _seen)
             if v is None:
@@ -592,11 +601,11 @@ class Resolver:
             return cs.targets
         return [t for t in cs.targets if t.cls is None or self._class_live(t.cls, inst)]
 
-    def _reach(self, roots):
+    def _reach(self, roots, fixed_inst=None):
         for r in roots:
             if r not in self.p.funcs:
                 raise AnalysisError("API entry point vanished: " + r)
-        inst = set()
+        inst = set(fixed_inst) if fixed_inst is not None else set()
         root_classes = {self.p.funcs[r].cls.qual for r in roots if self.p.funcs[r].cls is not None}
         inst |= root_classes
         props_by_name = {}
@@ -665,6 +674,8 @@ class Resolver:
                     for m in c.methods.values():
                         if m.name.startswith("__") and m.name.endswith("__") and m.name != "__init__" and m.qual not in seen:
                             seen |= self._reach_plain(m.qual, inst, seen)
+            if fixed_inst is not None:
+                return seen
             if new_inst <= inst:
                 self.instantiated = inst
                 return seen
@@ -687,7 +698,8 @@ class Resolver:
         return seen
 
     def reach_from(self, roots):
-        return self._reach(roots)
+        """Functions reachable from `roots`, with the classes instantiated on API paths as live set."""
+        return self._reach(roots, fixed_inst=self.instantiated)
 
     def is_reachable(self, f: Func):
         return f.qual in self.reachable or (f.qual + ".setter") in self.reachable
